@@ -535,7 +535,7 @@ def run_grpc_histories(rep, fsdbh):
     from lib import histprops as P
     rng = C.rng_for(rep.seed, "c11h")
     C.ensure_driver()
-    n = 40 if rep.tier == "quick" else 600
+    n = 80 if rep.tier == "quick" else 600
     cases = P.corpus("c11_grpc.txt")
     ncorpus = len(cases)
     for i in range(n):
